@@ -19,10 +19,10 @@ func init() {
 	register(&Rule{ID: "R26", Title: "nil-map / reflect discipline: no write to a map field a constructor leaves nil; reflect accessors match the Kind they sit under; reflect.TypeOf results are nil-checked before use", Min: 8, Run: ruleR26})
 	register(&Rule{ID: "R27", Title: "declared-only: task results reach instance data only under names taken from the element's declarations", Min: 2, Run: ruleR27})
 	register(&Rule{ID: "R28", Title: "itemtype-exhaustive: switches over ItemType cover all declared item types or have a default", Min: 2, Run: ruleR28})
-	register(&Rule{ID: "R29", Title: "findby-coverage: every child-element field of a schema struct is reached by its FindBy", Min: 400, Run: ruleR29})
+	register(&Rule{ID: "R29", Title: "findby-coverage: every child-element field of a schema struct is reached by its FindBy", Min: 300, Run: ruleR29})
 	register(&Rule{ID: "R30", Title: "xml-tables: namespaces, prefixes and xmlns declarations of the writer agree with each other and with the reader", Min: 8, Run: ruleR30})
 	register(&Rule{ID: "R31", Title: "marshal-pure: serialising does not write to the model", Min: 1, Run: ruleR31})
-	register(&Rule{ID: "R32", Title: "builder-integrity: every storable activity type is stored; nodes are stored after linking; link updates both ends", Min: 12, Run: ruleR32})
+	register(&Rule{ID: "R32", Title: "builder-integrity: every storable activity type is stored; nodes are stored after linking; link updates both ends", Min: 8, Run: ruleR32})
 	register(&Rule{ID: "R33", Title: "id-provenance: identifiers of flows and instances come from IGenerator.New", Min: 4, Run: ruleR33})
 	register(&Rule{ID: "R34", Title: "id-source-not-clock-only: an identifier source is not a pure function of the clock", Min: 2, Run: ruleR34})
 }
